@@ -41,7 +41,7 @@ Section Proofs.
     - apply andb_true_iff in Hp as [Hp1 Hp2]. cbn [fast_val ser_val].
       destruct v; try reflexivity.
       rewrite (mapM_ext _ _ l (fun x => IH x Hp1)).
-      destruct item as [[f| | |id isnum]| | | | | |]; try reflexivity.
+      destruct item as [[f| | |id isnum]| | | | | |]; try reflexivity; try (cbn [plain_tf] in Hp1; discriminate).
       destruct isnum; [discriminate|reflexivity].
     - cbn [fast_val ser_val]. destruct v; try reflexivity.
       rewrite (mapM_ext _ _ l (fun x => IH x Hp)).
